@@ -245,15 +245,28 @@ def c05_agree(d, gaps=()):
                     bad.append(("labellike_count", "%s:%s has %d entries for %d declared" % (g.decode(), pn.decode(), len(q["vals"]), n)))
     return bad
 
+def ratio_matches_data(d):
+    """the stored sub-frame count is what the reader will derive from ANALOG:RATE / POINT:RATE"""
+    h = run.hdr(d)
+    nabf, meas = int(h["nbAnalogByFrame"]), int(h["nbAnalogsMeas"])
+    if not d["frames"] or not nabf or not meas // nabf: return True
+    pr = getp(d, b"POINT", b"RATE"); ar = getp(d, b"ANALOG", b"RATE")
+    try:
+        p_, a_ = fval(pr["vals"][0]), fval(ar["vals"][0])
+        return p_ > 0 and int(a_ / p_) == nabf
+    except Exception: return False
+
 def c05(res):
     out = []
     gaps = set()
     loaded = False
+    saved_ratio_ok = {}
     for rec, t, prev, d, vars_ in Walk(res):
         if rec["op"] in ("new", "load"): gaps = set(); loaded = rec["op"] == "load"
+        if rec["op"] == "save" and d is not None: saved_ratio_ok[t[1]] = ratio_matches_data(d)
 
         if d is None or rec["res"] != "R ok": continue
-        if rec["op"] == "frame" and prev is not None:
+        if rec["op"] in ("frame", "frameself") and prev is not None:
             idx = int(t[2]) if len(t) > 2 else None
             if idx is not None:
                 if idx > prev["NF"]: gaps |= set(range(prev["NF"], idx))
@@ -266,7 +279,13 @@ def c05(res):
             if clause == "labellike_count" and loaded: continue     # a file may store e.g. UNITS as one string: not declared by name
             where = {"op": rec["n"], "call": rec["op"], "frame0_gap": 0 in gaps}
             if rec["op"] == "param": where["group"] = t[1]; where["name"] = t[2]
-            if rec["op"] == "frame": where["emptyframe"] = not (vars_.get(t[1], EMPTY)["pts"] or vars_.get(t[1], EMPTY)["subs"])
+            if rec["op"] == "frame":
+                where["emptyframe"] = not (vars_.get(t[1], EMPTY)["pts"] or vars_.get(t[1], EMPTY)["subs"])
+                pu = getp(prev, b"POINT", b"USED") if prev is not None else None
+                # the frame brings points to an object that already stores frames while POINT:USED is 0
+                where["points_onto_pointless_frames"] = bool(prev is not None and prev["NF"] > 0 and pu and pu["type"] == "I" and pu["vals"] and int(pu["vals"][0]) == 0
+                                                             and vars_.get(t[1], EMPTY)["pts"] and not any(f["pts"] for f in prev["frames"]))
+            if rec["op"] == "load": where["saved_ratio_matches_data"] = saved_ratio_ok.get(t[1], True)
             out.append((clause, where, detail))
             return out     # the first op that breaks the agreement; later states inherit it
     return out
